@@ -15,10 +15,16 @@ export CARGO_TARGET_DIR="$BUILD/harness"
 export VERIF_SEED="${VERIF_SEED:-0}"
 mkdir -p "$BUILD" "$VERIF_DIR/evidence" "$VERIF_DIR/replays"
 
+# The dbgchk build is also the "native CPU" build: compiled with -C target-cpu=native (into its own target
+# directory), so that code behind cfg(target_feature = ...) - AVX2 fast paths and the like - is compiled in and
+# exercised by one of the two workers of every supervised property.
+NATIVE_TARGET_DIR="$BUILD/harness-native"
 build_harness() { # profile...
   local log="$BUILD/build.log"
   for prof in "$@"; do
-    if ! (cd "$VERIF_DIR/harness" && cargo build --quiet --profile "$prof" -p mlv) >"$log" 2>&1; then
+    local tdir="$CARGO_TARGET_DIR" flags="${RUSTFLAGS:-}"
+    if [ "$prof" = "dbgchk" ]; then tdir="$NATIVE_TARGET_DIR"; flags="$flags -C target-cpu=native"; fi
+    if ! (cd "$VERIF_DIR/harness" && CARGO_TARGET_DIR="$tdir" RUSTFLAGS="$flags" cargo build --quiet --profile "$prof" -p mlv) >"$log" 2>&1; then
       cat "$log" >&2
       echo "INCONCLUSIVE: harness build failed (profile $prof); exit 2" >&2
       return 2
@@ -49,7 +55,7 @@ profiles=(release)
 if needs_dbgchk "$ID"; then profiles+=(dbgchk); fi
 if [ "$ID" = "C19" ] || [ "$ID" = "C04" ]; then profiles+=(dbg0); fi   # unoptimised build for the deep-input stack check
 build_harness "${profiles[@]}" || exit 2
-export MLV_DBGCHK_BIN="$CARGO_TARGET_DIR/dbgchk/mlv"
+export MLV_DBGCHK_BIN="$NATIVE_TARGET_DIR/dbgchk/mlv"
 export MLV_DBG0_BIN="$CARGO_TARGET_DIR/dbg0/mlv"
 export MLV_FUZZ_DIR="$VERIF_DIR/fuzz"
 export MLV_BUILD_DIR="$BUILD"
